@@ -141,6 +141,21 @@ CLAIMED['C19'] = dict(
          'strings; it is checked as a rider of the simulated runs.',
     design='6/C19')
 
+CLAIMED['C20'] = dict(
+    level='exploration',
+    text='Seeded search in two worlds: (routing) a real node with 1..3 wire connections issuing logging <module|.> '
+         '<level> (valid/invalid), *IDN?, ping, close while emitter tasks, poll threads and request handlers log records '
+         'of all levels carrying unique tokens - each connection must receive a record exactly when its level for that '
+         'module admits it (records emitted inside a request window are DONTCARE), nothing after off/IDN/close, no '
+         'cross-talk, a log call never raises; (rotation) the real LogfileHandler over a scratch directory with dated, '
+         'foreign and sub-directory entries, retention 0..5, clock jumps over 0..4 midnights and injected os.remove '
+         'failures - after every rollover the file being written and the N-1 newest earlier files exist, only older '
+         'own files are removed.',
+    note='Trusted: simulation kernel, simulated TCP, virtual clock, sim.fs for os.scandir/os.remove of frappy.logging. '
+         'A first record is written before the first midnight (mlzlog itself fails to roll over a handler that never '
+         'wrote - third-party code, see DESIGN.md).',
+    design='6/C20')
+
 NOT_APPLICABLE = {
     'C01': 'pure function of (datatype, candidate, previous) - no schedule, clock, I/O or fault dimension for a simulator to decide',
     'C02': 'pure round-trip law over (datatype, value) - no schedule, clock, I/O or fault dimension',
